@@ -171,7 +171,7 @@ theorem ackedW_mono (s : St) (op : Op) (id : Nat) (h : id ∈ s.ackedW) : id ∈
           id ∈ (if t.dbo ≤ t.ci then ({ t with com := t.tx, closed := true }, "ok") else ({ t with closed := true }, "err")).1.ackedW := by
         intro t ht; split <;> exact ht
       exact htail _ this
-  | crash d => simp only [step]; split; exact h; exact h
+  | crash d torn => simp only [step]; split; exact h; exact h
   | ready =>
     simp only [step, readyStep]; split
     · simp only [flushQ, foldl_flush, flushed]; exact h
@@ -263,7 +263,7 @@ theorem restart_catches_up_partial (w r : Bool) (l : List (Bool × Nat × Nat)) 
     that keeps the binlog up to 72 (third write lost), replay, final commit, ready -/
 def demoOps : List Op :=
   [.dSkip 24, .commit 24, .ready, .doOp 1 12 0 .ok, .doOp 2 13 20 .ok, .commit 36, .tx, .commit 72,
-   .doOp 3 12 0 .cbfail, .doOp 4 12 0 .ok, .crash 72, .dApply 1, .dSkip 20, .commit 72, .ready]
+   .doOp 3 12 0 .cbfail, .doOp 4 12 0 .ok, .crash 72 false, .dApply 1, .dSkip 20, .commit 72, .ready]
 
 example : (run (fresh true false [(false, 0, 24)]) (demoOps.take 7)).ptx = true := by decide
 example : (run (fresh true false [(false, 0, 24)]) (demoOps.take 7)).ackedW = [1] := by decide
@@ -277,8 +277,22 @@ example : let s := run (fresh true false [(false, 0, 24)]) demoOps
 example : failing (run (fresh true false [(false, 0, 24)]) (demoOps.take 8)) (.doOp 3 12 0 .cbfail) = true := by decide
 -- a restart with a non-empty database queues the replayed payloads until the binlog's Commit, then flushes them
 def demoOps2 : List Op :=
-  [.dSkip 24, .commit 24, .ready, .doOp 1 12 0 .ok, .commit 36, .tx, .doOp 2 12 0 .ok, .crash 48, .dApply 1]
+  [.dSkip 24, .commit 24, .ready, .doOp 1 12 0 .ok, .commit 36, .tx, .doOp 2 12 0 .ok, .crash 48 false, .dApply 1]
 example : let s := run (fresh true false [(false, 0, 24)]) demoOps2
     s.q = true ∧ s.tx = ⟨[1], 36⟩ ∧ s.aqOff = 48 := by decide
+
+/-! ### the defect fixed by fixes/C17-binlog-torn-tail.diff -/
+
+/-- with the fix a torn tail changes nothing: the restart proceeds exactly as after a crash that left no partial record -/
+theorem torn_tail_is_cut (s : St) (d : Nat) : step s (.crash d true) = step s (.crash d false) := rfl
+
+/-- before the fix (`stepOld`): write 1 is acknowledged in wait-for-commit mode, the process is killed inside its next
+    binlog write (the file ends with a partial record): the engine does not come up again (`open-error`), so the
+    acknowledged write is not available — while the fixed engine restarts and holds it. -/
+example :
+    let s := run (fresh true false [(false, 0, 24)]) [.dSkip 24, .commit 24, .ready, .doOp 1 12 0 .ok, .commit 36, .doOp 2 12 0 .ok]
+    s.ackedW = [1] ∧ s.com = ⟨[], 0⟩ ∧ (stepOld s (.crash 36 true)).2 = "open-error" ∧ (stepOld s (.crash 36 true)).1.closed = true ∧
+    (run s [.crash 36 true, .dSkip 24, .dApply 1, .commit 36, .ready]).tx = ⟨[1], 36⟩ ∧
+    (run s [.crash 36 true, .dSkip 24, .dApply 1, .commit 36, .ready]).closed = false := by decide
 
 end SH.Engine
